@@ -64,7 +64,7 @@ package keeper
 //@ define inStepColl(ctx, m, pool, p, s, d) := ite(p == pool.AmmPoolId, perpCollOf(pool, s, d), storedColl(ctx, p, s, d)) - storedColl(ctx, p, s, d) == objColl(m, p, s, d) - rowColl(ctx, unbech32(m.Address), m.Id, p, s, d)
 
 //@ func (Keeper).SettleFunding
-//@ callers-assumed C09: the liquidation, stop-loss and take-profit flows that also call this are not under a stored-state contract yet (DESIGN A.5); the in-step precondition is proved at the call sites in ClosePosition only
+//@ callers-assumed C09: the consolidating open that also calls this is not under a stored-state contract (DESIGN A.5); the in-step precondition is established at the call sites in ClosePosition and CheckAndLiquidateUnhealthyPosition
 //@ forall p Int
 //@ forall s Int
 //@ forall d Str
@@ -73,6 +73,7 @@ package keeper
 //@ ensures C09/funding-settlement-keeps-the-liabilities-gap: err == nil && old(mtp.Id != 0 && mtp.AmmPoolId == pool.AmmPoolId && inStepLiab(ctx, mtp, pool, p, s, d)) ==> liabGap(ctx, p, s, d) == old(liabGap(ctx, p, s, d)) && inStepLiab(ctx, mtp, pool, p, s, d)
 //@ ensures C09/funding-settlement-keeps-the-collateral-gap: err == nil && old(mtp.Id != 0 && mtp.AmmPoolId == pool.AmmPoolId && inStepColl(ctx, mtp, pool, p, s, d)) ==> collGap(ctx, p, s, d) == old(collGap(ctx, p, s, d)) && inStepColl(ctx, mtp, pool, p, s, d)
 //@ ensures C09/funding-settlement-keeps-the-pool-id: pool.AmmPoolId == old(pool.AmmPoolId)
+//@ ensures C09/failed-funding-settlement-stores-nothing: err != nil && old(mtp.Id != 0) ==> custodyGap(ctx, p, s, d) == old(custodyGap(ctx, p, s, d)) && liabGap(ctx, p, s, d) == old(liabGap(ctx, p, s, d)) && collGap(ctx, p, s, d) == old(collGap(ctx, p, s, d))
 
 // C09: paying borrow interest takes the same custody from the position and from the pool's book for
 // the position's side and custody asset, and touches no other aggregate.
@@ -94,15 +95,30 @@ package keeper
 //@ modifies module:amm
 //@ frame-only
 
+// Stored-state form (C09): a forced close is a close in full. Handed a position and a pool in step with
+// the store it leaves `stored pool - sum over stored positions` where it was ON EVERY EXIT: its callers
+// are reached from the close-positions handler, which logs an error and goes on.
 //@ func (Keeper).ForceCloseLong
 //@ callers C10/force-close-only-behind-a-gate: (Keeper).CheckAndLiquidateUnhealthyPosition, (Keeper).CheckAndCloseAtStopLoss, (Keeper).CheckAndCloseAtTakeProfit
+//@ decabstract
+//@ forall p Int
+//@ forall s Int
+//@ forall d Str
 //@ modifies bank, module:accountedpool, module:amm, module:masterchef, module:perpetual, module:sdk-distribution, module:tier, *mtp, *pool
-//@ frame-only
+//@ ensures C09/force-close-keeps-the-custody-gap: old(mtp.Id != 0 && mtp.AmmPoolId == pool.AmmPoolId && inStepCustody(ctx, mtp, pool, p, s, d)) ==> custodyGap(ctx, p, s, d) == old(custodyGap(ctx, p, s, d))
+//@ ensures C09/force-close-keeps-the-liabilities-gap: old(mtp.Id != 0 && mtp.AmmPoolId == pool.AmmPoolId && inStepLiab(ctx, mtp, pool, p, s, d)) ==> liabGap(ctx, p, s, d) == old(liabGap(ctx, p, s, d))
+//@ ensures C09/force-close-keeps-the-collateral-gap: old(mtp.Id != 0 && mtp.AmmPoolId == pool.AmmPoolId && inStepColl(ctx, mtp, pool, p, s, d)) ==> collGap(ctx, p, s, d) == old(collGap(ctx, p, s, d))
 
 //@ func (Keeper).ForceCloseShort
 //@ callers C10/force-close-only-behind-a-gate: (Keeper).CheckAndLiquidateUnhealthyPosition, (Keeper).CheckAndCloseAtStopLoss, (Keeper).CheckAndCloseAtTakeProfit
+//@ decabstract
+//@ forall p Int
+//@ forall s Int
+//@ forall d Str
 //@ modifies bank, module:accountedpool, module:amm, module:masterchef, module:perpetual, module:sdk-distribution, module:tier, *mtp, *pool
-//@ frame-only
+//@ ensures C09/force-close-keeps-the-custody-gap: old(mtp.Id != 0 && mtp.AmmPoolId == pool.AmmPoolId && inStepCustody(ctx, mtp, pool, p, s, d)) ==> custodyGap(ctx, p, s, d) == old(custodyGap(ctx, p, s, d))
+//@ ensures C09/force-close-keeps-the-liabilities-gap: old(mtp.Id != 0 && mtp.AmmPoolId == pool.AmmPoolId && inStepLiab(ctx, mtp, pool, p, s, d)) ==> liabGap(ctx, p, s, d) == old(liabGap(ctx, p, s, d))
+//@ ensures C09/force-close-keeps-the-collateral-gap: old(mtp.Id != 0 && mtp.AmmPoolId == pool.AmmPoolId && inStepColl(ctx, mtp, pool, p, s, d)) ==> collGap(ctx, p, s, d) == old(collGap(ctx, p, s, d))
 
 //@ func (Keeper).CalcMTPTakeProfitLiability
 //@ modifies nothing
@@ -156,7 +172,6 @@ package keeper
 //@ frame-only
 
 //@ func (Keeper).EstimateAndRepay
-//@ callers-assumed C09: the liquidation, stop-loss and take-profit flows that also call this are not under a stored-state contract yet (DESIGN A.5); the in-step precondition is proved at the call sites in ClosePosition only
 //@ forall p Int
 //@ forall s Int
 //@ forall d Str
@@ -166,6 +181,9 @@ package keeper
 //@ ensures C09/close-keeps-the-custody-gap: err == nil && old(mtp.Id != 0 && mtp.AmmPoolId == pool.AmmPoolId && inStepCustody(ctx, mtp, pool, p, s, d)) && (mtp.Custody > 0 || (mtp.Custody == 0 && mtp.Liabilities == 0 && mtp.Collateral == 0)) ==> custodyGap(ctx, p, s, d) == old(custodyGap(ctx, p, s, d))
 //@ ensures C09/close-keeps-the-liabilities-gap: err == nil && old(mtp.Id != 0 && mtp.AmmPoolId == pool.AmmPoolId && inStepLiab(ctx, mtp, pool, p, s, d)) && (mtp.Custody > 0 || (mtp.Custody == 0 && mtp.Liabilities == 0 && mtp.Collateral == 0)) ==> liabGap(ctx, p, s, d) == old(liabGap(ctx, p, s, d))
 //@ ensures C09/close-keeps-the-collateral-gap: err == nil && old(mtp.Id != 0 && mtp.AmmPoolId == pool.AmmPoolId && inStepColl(ctx, mtp, pool, p, s, d)) && (mtp.Custody > 0 || (mtp.Custody == 0 && mtp.Liabilities == 0 && mtp.Collateral == 0)) ==> collGap(ctx, p, s, d) == old(collGap(ctx, p, s, d))
+
+//@ ensures C09/failed-close-stores-nothing: err != nil ==> custodyGap(ctx, p, s, d) == old(custodyGap(ctx, p, s, d)) && liabGap(ctx, p, s, d) == old(liabGap(ctx, p, s, d)) && collGap(ctx, p, s, d) == old(collGap(ctx, p, s, d))
+//@ ensures C09/full-close-leaves-nothing: err == nil && closingRatio == 1000000000000000000 ==> mtp.Custody == 0 && mtp.Liabilities == 0 && mtp.Collateral == 0
 
 // The safety factor is a parameter read; summarised so that clauses can name the value read.
 //@ func (Keeper).GetSafetyFactor
@@ -187,8 +205,18 @@ package keeper
 
 // The three gates. Whatever they return, a close has been attempted only behind the stated
 // condition, evaluated on the values the module itself computes at that moment.
+// Stored-state form (C09), on EVERY exit (the close-positions handler logs an error and goes on): handed a
+// position and a pool in step with the store, the three gates leave `stored pool - sum over stored
+// positions` where it was, whether they settle only, close, or fail on the way.
 //@ func (Keeper).CheckAndLiquidateUnhealthyPosition
 //@ decabstract
+//@ forall p Int
+//@ forall s Int
+//@ forall d Str
+//@ modifies bank, module:accountedpool, module:amm, module:masterchef, module:perpetual, module:sdk-distribution, module:tier, *mtp
+//@ ensures C09/liquidation-keeps-the-custody-gap: old(mtp.Id != 0 && mtp.AmmPoolId == pool.AmmPoolId && inStepCustody(ctx, mtp, pool, p, s, d)) ==> custodyGap(ctx, p, s, d) == old(custodyGap(ctx, p, s, d))
+//@ ensures C09/liquidation-keeps-the-liabilities-gap: old(mtp.Id != 0 && mtp.AmmPoolId == pool.AmmPoolId && inStepLiab(ctx, mtp, pool, p, s, d)) ==> liabGap(ctx, p, s, d) == old(liabGap(ctx, p, s, d))
+//@ ensures C09/liquidation-keeps-the-collateral-gap: old(mtp.Id != 0 && mtp.AmmPoolId == pool.AmmPoolId && inStepColl(ctx, mtp, pool, p, s, d)) ==> collGap(ctx, p, s, d) == old(collGap(ctx, p, s, d))
 //@ ensures C10/closes-only-at-or-below-safety-factor: called("ForceCloseLong", 1) || called("ForceCloseShort", 1) ==> fst(resultOf("GetMTPHealth", 1)) <= resultOf("GetSafetyFactor", 1)
 // Settling a position's interest and funding moves pool custody and liabilities: the accounted pool
 // must be refreshed (a position hook) before the function returns, closed or not.
@@ -196,15 +224,45 @@ package keeper
 
 //@ func (Keeper).CheckAndCloseAtStopLoss
 //@ decabstract
+//@ forall p Int
+//@ forall s Int
+//@ forall d Str
+//@ modifies bank, module:accountedpool, module:amm, module:masterchef, module:perpetual, module:sdk-distribution, module:tier, *mtp
+//@ ensures C09/stop-loss-close-keeps-the-custody-gap: old(mtp.Id != 0 && mtp.AmmPoolId == pool.AmmPoolId && inStepCustody(ctx, mtp, pool, p, s, d)) ==> custodyGap(ctx, p, s, d) == old(custodyGap(ctx, p, s, d))
+//@ ensures C09/stop-loss-close-keeps-the-liabilities-gap: old(mtp.Id != 0 && mtp.AmmPoolId == pool.AmmPoolId && inStepLiab(ctx, mtp, pool, p, s, d)) ==> liabGap(ctx, p, s, d) == old(liabGap(ctx, p, s, d))
+//@ ensures C09/stop-loss-close-keeps-the-collateral-gap: old(mtp.Id != 0 && mtp.AmmPoolId == pool.AmmPoolId && inStepColl(ctx, mtp, pool, p, s, d)) ==> collGap(ctx, p, s, d) == old(collGap(ctx, p, s, d))
 //@ ensures C10/closes-only-at-stop-loss: called("ForceCloseLong", 1) ==> fst(resultOf("GetAssetPrice", 1)) <= old(mtp.StopLossPrice) && old(mtp.Position) == 1
 //@ ensures C10/closes-short-only-at-stop-loss: called("ForceCloseShort", 1) ==> fst(resultOf("GetAssetPrice", 1)) >= old(mtp.StopLossPrice) && old(mtp.Position) == 2
 //@ ensures C10/position-off-its-stop-loss-left-alone: !called("ForceCloseLong", 1) && !called("ForceCloseShort", 1) ==> unchanged(ctx)
 
 //@ func (Keeper).CheckAndCloseAtTakeProfit
 //@ decabstract
+//@ forall p Int
+//@ forall s Int
+//@ forall d Str
+//@ modifies bank, module:accountedpool, module:amm, module:masterchef, module:perpetual, module:sdk-distribution, module:tier, *mtp
+//@ ensures C09/take-profit-close-keeps-the-custody-gap: old(mtp.Id != 0 && mtp.AmmPoolId == pool.AmmPoolId && inStepCustody(ctx, mtp, pool, p, s, d)) ==> custodyGap(ctx, p, s, d) == old(custodyGap(ctx, p, s, d))
+//@ ensures C09/take-profit-close-keeps-the-liabilities-gap: old(mtp.Id != 0 && mtp.AmmPoolId == pool.AmmPoolId && inStepLiab(ctx, mtp, pool, p, s, d)) ==> liabGap(ctx, p, s, d) == old(liabGap(ctx, p, s, d))
+//@ ensures C09/take-profit-close-keeps-the-collateral-gap: old(mtp.Id != 0 && mtp.AmmPoolId == pool.AmmPoolId && inStepColl(ctx, mtp, pool, p, s, d)) ==> collGap(ctx, p, s, d) == old(collGap(ctx, p, s, d))
 //@ ensures C10/closes-only-at-take-profit: called("ForceCloseLong", 1) ==> fst(resultOf("GetAssetPrice", 1)) >= old(mtp.TakeProfitPrice) && old(mtp.Position) == 1
 //@ ensures C10/closes-short-only-at-take-profit: called("ForceCloseShort", 1) ==> fst(resultOf("GetAssetPrice", 1)) <= old(mtp.TakeProfitPrice) && old(mtp.Position) == 2
 //@ ensures C10/position-off-its-take-profit-left-alone: !called("ForceCloseLong", 1) && !called("ForceCloseShort", 1) ==> unchanged(ctx)
+
+// C09, the bots' message flow: every liquidation, stop-loss and take-profit request reads the position and
+// the pool from the store, so the gates' in-step precondition holds at each call; errors of single requests
+// are logged and the handler goes on (and always succeeds), which is why the gates' clauses hold on every exit.
+//@ func (msgServer).ClosePositions
+//@ entry
+//@ bound Liquidate 1
+//@ bound StopLoss 1
+//@ bound TakeProfit 1
+//@ decabstract
+//@ forall p Int
+//@ forall s Int
+//@ forall d Str
+//@ ensures C09/close-positions-keeps-the-custody-gap: custodyGap(goCtx, p, s, d) == old(custodyGap(goCtx, p, s, d))
+//@ ensures C09/close-positions-keeps-the-liabilities-gap: liabGap(goCtx, p, s, d) == old(liabGap(goCtx, p, s, d))
+//@ ensures C09/close-positions-keeps-the-collateral-gap: collGap(goCtx, p, s, d) == old(collGap(goCtx, p, s, d))
 
 // A stored position sits under its owner's address and its id.
 //@ rowinv C10,C09/mtpKey table perpetual:types.GetMTPKey row types.MTP : unbech32(row.Address) == key0 && row.Id == key1 && key1 > 0
@@ -331,6 +389,11 @@ package keeper
 // custody is zero or negative is removed by a partial close while the pool keeps the unclosed share.
 // Proved on the body only, never handed to callers.
 //@ local-ensures C09/a-removed-position-has-nothing-left: err == nil && old(mtp.Liabilities >= 0 && mtp.Collateral >= 0) && closingRatio > 0 && closingRatio <= 1000000000000000000 && payingLiabilities == (old(mtp.Liabilities) * closingRatio) / 1000000000000000000 && mtp.Custody <= 0 ==> mtp.Custody == 0 && mtp.Liabilities == 0 && mtp.Collateral == 0
+// A failed repayment has written neither the position table nor the pool table (its callers in the
+// liquidation flows log the error and go on).
+//@ ensures C09/failed-repay-stores-nothing: err != nil ==> custodyGap(ctx, p, s, d) == old(custodyGap(ctx, p, s, d)) && liabGap(ctx, p, s, d) == old(liabGap(ctx, p, s, d)) && collGap(ctx, p, s, d) == old(collGap(ctx, p, s, d))
+// A close in full (ratio one, all liabilities paid) leaves nothing on the position.
+//@ ensures C09/full-repay-leaves-nothing: err == nil && closingRatio == 1000000000000000000 && payingLiabilities == old(mtp.Liabilities) ==> mtp.Custody == 0 && mtp.Liabilities == 0 && mtp.Collateral == 0
 //@ ensures C09/repay-stores-or-removes-the-position: err == nil ==> ite(mtp.Custody <= 0, !mtpHas(ctx, unbech32(mtp.Address), mtp.Id), mtpHas(ctx, unbech32(mtp.Address), mtp.Id) && mtpRow(ctx, unbech32(mtp.Address), mtp.Id).Custody == mtp.Custody && mtpRow(ctx, unbech32(mtp.Address), mtp.Id).Liabilities == mtp.Liabilities && mtpRow(ctx, unbech32(mtp.Address), mtp.Id).Collateral == mtp.Collateral)
 
 //@ func (Keeper).FundingFeeCollection
